@@ -285,6 +285,21 @@ func (env *Env) ident(name string) V {
 			return v
 		}
 	}
+	// a loop variable that was renamed in the source: if the loop has exactly one integer variable (besides the range
+	// index), an invariant's unknown name can only mean that one. Binding it is sound (the invariant is still checked
+	// on entry and for preservation, and the postconditions still have to follow); it keeps a rename from being an alarm.
+	if env.at != nil && len(env.phiNames) > 0 {
+		var cand []string
+		for k := range env.phiNames {
+			if v, ok := env.vars[k]; ok && isInteger(v.Ty) && k != "rangeindex" && !regexp.MustCompile(`^t\d+$`).MatchString(k) {
+				cand = append(cand, k)
+			}
+		}
+		if len(cand) == 1 {
+			fc.assumptions[fmt.Sprintf("loop variable renamed: the name %q in a loop annotation of %s is read as the loop's only integer variable %q", name, fc.name, cand[0])] = true
+			return env.vars[cand[0]]
+		}
+	}
 	panic(specErr("unknown identifier %q in %s", name, fc.name))
 }
 
